@@ -1877,7 +1877,7 @@ impl Scenario for StatsTruth {
          matching the filter, payload bytes, sorted links, FEE IDs in first-seen order, run trigger type, RDH version, \
          data format, system ID; in check and view modes heartbeat frames, layer/stave pairs and all 20 per-bit \
          trigger counts over analysed packets; total_errors == number of messages, unique codes == codes in the \
-         messages (1 in 6 check runs with end-of-run expectations from a custom checks file, whose messages count too); report rows Total RDHs / Total HBFs / Total Errors agree with the file. Non-trivial: >= 2 packets \
+         messages (1 in 6 check runs with end-of-run expectations from a custom checks file, whose messages count too); report rows Total RDHs / Total HBFs / Total Errors agree with the file; the FEE IDs the report lists plus its `... K more` are all FEE IDs (1 in 25 streams has 50-350 of them). Non-trivial: >= 2 packets \
          and >= 3 threads."
             .into()
     }
@@ -1920,7 +1920,9 @@ impl Scenario for StatsTruth {
             return Trial::StatsTruth { spec, analysed: true, label: format!("{} | stream beyond 4 GiB", mode.join(" ")) };
         }
         let n = packet_count(&mut rng, tier).min(3000);
-        let nl = rng.range(1, 6) as usize;
+        // (1 in 25: dozens to hundreds of FEE IDs - more than the report lists)
+        let nl = if rng.chance(1, 25) { rng.range(50, 350) as usize } else { rng.range(1, 6) as usize };
+        let n = if nl >= 50 { n.max(nl * 2) } else { n };
         let corpus_pick = if case % 10 == 9 { crate::corpus::pick(&mut rng, 300_000, true) } else { None };
         let from_corpus = corpus_pick.is_some();
         let mut stave_errors = false;
@@ -2593,6 +2595,19 @@ impl Scenario for PayloadCut {
                 // (unknown IDs in half of the cases - among them 0xFF, the one that looks like padding)
                 let pu = if rng.chance(1, 2) { 0 } else { *rng.pick(&[30u64, 150]) };
                 let input = gen_framed_words(&mut rng, n, mw, 1, pu, true);
+                // 1 payload in 5 (data format 2, two words or more): the second word begins with exactly five zero
+                // bytes - one short of what the tool takes for the filler of a 16-byte slot
+                let mut zr = rng.fork(5);
+                let input = rebuild_stream(&input, &mut |_, r, payload| {
+                    if r.data_format == 2 && payload.len() >= 20 && zr.chance(1, 5) {
+                        for b in payload[10..15].iter_mut() {
+                            *b = 0;
+                        }
+                        if payload[15] == 0 {
+                            payload[15] = 1 + zr.below(255) as u8;
+                        }
+                    }
+                });
                 let v = if rng.chance(1, 2) { VIEW_MODES[2] } else { VIEW_MODES[1] };
                 let mut parts = s(v);
                 let im = pick_input_mode(&mut rng);
@@ -3038,6 +3053,31 @@ impl Scenario for Faults {
                 cfg.p_no_data = 100;
             }
             let mut st = gen_conforming(&cfg, &mut rng);
+            let mut lockstep = false;
+            if name == "fee_edit_page_n" && !stave && rng.chance(1, 2) {
+                lockstep = true;
+                // two links in lockstep (the usual CRU order): the second link is a twin of the first - same pages,
+                // page by page - under another link number and FEE ID, merged round robin
+                let mut twin = st.links[0].clone();
+                let used_links: Vec<u8> = st.links.iter().map(|l| l.link_id).collect();
+                let used_fees: Vec<u16> = st.links.iter().map(|l| l.fee_id).collect();
+                let nl = (0..12u8).find(|l| !used_links.contains(l)).unwrap_or(15);
+                let nf = loop {
+                    let f = itsgen::rdh::fee_id(((twin.fee_id >> 12) & 7) as u8, rng.below(48) as u8, ((twin.fee_id >> 8) & 3) as u8);
+                    if !used_fees.iter().any(|u| itsgen::rdh::layer_stave_match(*u, f)) {
+                        break f;
+                    }
+                };
+                twin.link_id = nl;
+                twin.fee_id = nf;
+                for p in twin.packets.iter_mut() {
+                    p.rdh.link_id = nl;
+                    p.rdh.fee_id = nf;
+                }
+                st.links.truncate(1);
+                st.links.push(twin);
+                st.remerge(itsgen::gen::Merge::RoundRobin, &mut rng);
+            }
             let applied = match itsgen::faults::apply(&mut st, name, &mut rng) {
                 Some(a) => a,
                 None => continue,
@@ -3095,7 +3135,7 @@ impl Scenario for Faults {
                 silent_in_sanity: applied.silent_in_sanity,
                 silent_in_sanity_no_target: applied.silent_in_sanity_no_target,
                 exit_code,
-                fault: applied.name.to_string(),
+                fault: if lockstep { format!("{} (two links in lockstep)", applied.name) } else { applied.name.to_string() },
             };
         }
         // never applicable for this seed: fall back to another entry (counted under its own name)
